@@ -150,6 +150,11 @@ pub fn judge(case: &Case) -> Verdict {
             // guard against blaming swc's own print / parse round trip: the *input* must be
             // stable under print -> parse -> print (no transform involved)
             let stable = with_transform(&case.source, lang, Some("{}"), |t| {
+                // the printed text must also mean the same program as the AST it was printed from
+                // (seen: `((a, b) as any)` printed as `a, b as any`, which re-parses - differently)
+                if crate::driver::print_is_faithful(t, &t.input) != Some(true) {
+                    return Some(false);
+                }
                 let p1c = t.print_final(&t.input).ok()?;
                 let p1 = t.print_final_nocomments(&t.input).ok()?;
                 let p2 = with_transform(&p1c, lang, Some("{}"), |t2| t2.print_final_nocomments(&t2.input).ok())
